@@ -66,6 +66,8 @@ pub struct World {
     pub allowed_foreign: Pubkey,
     pub bad_foreign: Pubkey,
     pub failing_foreign: Pubkey,
+    /// wallets the global fee state named before a rotation (their ATAs still exist)
+    pub retired_fee_wallets: Vec<Pubkey>,
 }
 
 #[derive(Clone, Debug)]
@@ -441,6 +443,7 @@ impl Genesis {
             allowed_foreign,
             bad_foreign,
             failing_foreign,
+            retired_fee_wallets: vec![],
         };
 
         for gi in 0..cfg.n_groups {
